@@ -24,8 +24,13 @@ INVARIANT ClassInvariant
 CHECK_DEADLOCK FALSE
 EOT
 }
-for m in und dir wund wdir sign; do
+for m in dir wund sign; do
   gen "$m" "\"$m\"" 4 3 3 3 3 2
+done
+gen und_s1 '"und"' 4 3 3 3 3 2 "{1, 2}"
+gen und_s2 '"und"' 4 3 3 3 3 2 "{3, 4}"
+for k in 1 2 3; do
+  gen "wdir_s$k" '"wdir"' 4 3 3 3 3 2 "{$k}"
 done
 gen und_thorough  '"und"'  4 4 4 3 3 2
 for k in 1 2 3 4; do
